@@ -24,7 +24,7 @@ CHECKS = {
     "C04": {
         "technique": "AST def-use / lineage evaluation of the tau-thresholding pipeline, closed-term check of the tau formula, MIR def-use of builder call order",
         "level": "Decides parameter agreement of cap/noise/tau/event (K1), the pipeline order dedupe->cap->count->noise->filter->project on every non-error return (K2), strict lower-bound filter on the noisy count (K3), the public-values gate (K4), "
-                 "aggregation over the join with released keys (K5), the closed form of tau (K6), that no builder restores the unprotected input (B1) and that no filter is applied to a still-empty builder, where it would be dropped (B2). Randomness and SQL semantics of the produced relation are not decided.",
+                 "aggregation over the join with released keys (K5), the closed form of tau (K6), that no builder restores the unprotected input (B1) that no filter is applied to a still-empty builder, where it would be dropped (B2) and that every Map re-builder re-applies filter / order_by / limit / offset unconditionally (B3). Randomness and SQL semantics of the produced relation are not decided.",
         "design_ref": "DESIGN.md §3 C04",
         "note": "Trusted: Relation::{unique, limit_col_contributions} do what their names say (bodies not analysed); statrs Normal::inverse_cdf.",
     },
@@ -38,7 +38,7 @@ CHECKS = {
     "C06": {
         "technique": "abstract interpretation of closure ASTs (monotonicity class x sign/range per declared piece) against a reviewed transfer table; normal-form comparison of the constructor plumbing, aggregate-image idioms, corner hull and wrapper fallbacks",
         "level": "Decides the soundness premise of box-image propagation for every PartitionnedMonotonic site: the closure is separately monotone on every declared piece and the pieces cover the domain (M, P), aggregate images hull the element set (A), "
-                 "super_image takes least/greatest over all corners (O2), wrappers fall back to the co-domain (O), Pointwise / PartitionnedMonotonic refuse a set outside their domain through their own test or through guarded injections (D), optional flags are the disjunction of all children (O3), sibling arms of one SQL function compute the same operator (S), value enumerations are not truncated (N1). Exhaustive over the function table; numeric adequacy of hand-written aggregate bounds is not decided.",
+                 "super_image takes least/greatest over all corners (O2), wrappers fall back to the co-domain (O), Pointwise / PartitionnedMonotonic refuse a set outside their domain through their own test or through guarded injections (D), products of interval sets are united / intersected coordinate by coordinate (T), optional flags are the disjunction of all children (O3), sibling arms of one SQL function compute the same operator (S), value enumerations are not truncated (N1). Exhaustive over the function table; numeric adequacy of hand-written aggregate bounds is not decided.",
         "design_ref": "DESIGN.md §3 C06",
         "note": "Trusted: the reviewed transfer table (qv/c06_rules.py, one mathematical reason per line); unknown operations fail closed.",
     },
@@ -65,7 +65,7 @@ CHECKS = {
     },
     "C11": {
         "technique": "MIR who-may-write facts for the interval vector and return-place dominance in the two mutators; AST rules for hull construction; simulated ordered match over all variant pairs for the four lattice operations",
-        "level": "Decides encapsulation of the interval-set invariant (L1), that simplification returns self or the min/max hull (L2), conservative defaults and neutral/absorbing elements of the cross-variant dispatch over all 21x21 pairs (L3) the conversion direction of cross-variant arms (L4), component-wise composite operations (L5), least/greatest Bound values (L6), an order on interval sets that is inclusion (L7) and untruncated value enumerations (N1). "
+        "level": "Decides encapsulation of the interval-set invariant (L1), that simplification returns self or the min/max hull (L2), conservative defaults and neutral/absorbing elements of the cross-variant dispatch over all 21x21 pairs (L3) the conversion direction of cross-variant arms (L4), component-wise composite operations (L5), least/greatest Bound values (L6), an order on interval sets that is inclusion (L7), same-variant union / intersection of the interval-set variants (L8) and untruncated value enumerations (N1). "
                  "Index arithmetic of union/intersection and per-variant laws over values are not decided.",
         "design_ref": "DESIGN.md §3 C11",
         "note": "L1(d) compile-fail witnesses are in /verif/witness (thorough tier).",
@@ -73,13 +73,13 @@ CHECKS = {
     "C08": {
         "technique": "join of the renderer table (variant -> translator method -> SQL spelling, from type-resolved MIR switch/const facts) with the reader table (SQL name -> operator, from the syn AST); positional slot tables of the CTE renderer; oracle table of standard SQL names",
         "level": "Decides, for every operator the SQL reader can produce, that it is rendered without abort (E3) under a spelling the reader maps back to the same operator (E4), that standard SQL names have their standard meaning (E5), that every component of a relation node and every alias is rendered "
-                 "inside the node's CTE (E7, E8), that operator operands are parenthesised (E9), that GROUP BY prefers input columns over aliases (E10), that the builders keep the WHERE on every split shape (E11), that nested CASE is merged in order (E12) that CTE lists of binary nodes are merged through one set (E13), that float literals are written with round-trip precision (E14), that the Map/Reduce split keeps the order of select items (E15) that CTE definitions are spelled like their references (E16), that literals are rendered through exact (transparent) Display impls (E17), that a name becomes a one-component identifier (E18), that the default sort direction is ascending on both sides (E19) and that in every dialect the columns of a Map / Reduce CTE are named by the column list or by aliases that survive the dialect's hooks (E8). Execution on databases, name resolution as a whole and the Map/Reduce split are not decided.",
+                 "inside the node's CTE (E7, E8), that operator operands are parenthesised (E9), that GROUP BY prefers input columns over aliases (E10), that the builders keep the WHERE on every split shape (E11), that nested CASE is merged in order (E12) that CTE lists of binary nodes are merged through one set (E13), that float literals are written with round-trip precision (E14), that the Map/Reduce split keeps the order of select items (E15) that CTE definitions are spelled like their references (E16), that literals are rendered through exact (transparent) Display impls (E17), that a name becomes a one-component identifier (E18), that the default sort direction is ascending on both sides (E19) and that in every dialect the columns of a Map / Reduce CTE are named by the column list or by aliases that survive the dialect's hooks (E8), that the trailing SELECT of a node does not re-apply OFFSET / WHERE / GROUP BY (E7), that join kinds are the same on both sides of the renderer and of the reader (E20) and that base tables are named by their path (E21). Execution on databases, name resolution as a whole and the Map/Reduce split are not decided.",
         "design_ref": "DESIGN.md §3 C08",
         "note": "Trusted: sqlparser parses NAME(args) into a Function node of that name (keyword functions listed); operators map to same-named ast operators.",
     },
     "C12": {
         "technique": "arm-table parity of super_image / value over the syn AST, must-pass-through of the checked_* guards, MIR cast facts with dominating round-trip tests, reviewed table of the 14 primitive pairs",
-        "level": "Decides set/value parity of the 24 dispatching injections (J1), that primitive values and images go through the checked guards (J2), that lossy numeric casts are dominated by a round-trip test (J3), that narrowing / non-monotone conversions can refuse and only map single values (J4), untruncated value enumerations (N1), a single value-conversion entry point (J5) and text renderings that print a wrapper only through a transparent Display (J6). "
+        "level": "Decides set/value parity of the 24 dispatching injections (J1), that primitive values and images go through the checked guards (J2), that lossy numeric casts are dominated by a round-trip test (J3), that narrowing / non-monotone conversions can refuse and only map single values (J4), untruncated value enumerations (N1), a single value-conversion entry point (J5) text renderings that print a wrapper only through a transparent Display (J6), a full-type (or refusing) fallback image for sets that are not enumerated (J4) and inner injections that go from the domain side to the co-domain side (J7). "
                  "Injectivity of format!-based renderings and composite liftings over all values are not decided.",
         "design_ref": "DESIGN.md §3 C12",
         "note": "Trusted: the reviewed classification of primitive pairs (PAIRS in qv/c12.py); a new pair is UNDECIDED.",
@@ -99,7 +99,7 @@ CHECKS = {
     },
     "C17": {
         "technique": "per-translator renderer tables from the MIR (override or default, abort analysis, SQL spelling constants) joined with each dialect's reader table from the AST; dialect pairing; quote characters evaluated against sqlparser's own dialect source",
-        "level": "Decides for the eight translators that every operator in scope is rendered without abort (E3d), under a spelling the same dialect's reader reads back as the same operator (E4d), that each translator reads with its own sqlparser dialect (E5d), quotes identifiers with a character that dialect accepts (E6), and the shared rendering rules E7-E9, E12-E14, E16-E19. "
+        "level": "Decides for the eight translators that every operator in scope is rendered without abort (E3d), under a spelling the same dialect's reader reads back as the same operator (E4d), that each translator reads with its own sqlparser dialect (E5d), quotes identifiers with a character that dialect accepts (E6), and the shared rendering rules E7-E9, E12-E14, E16-E21. "
                  "Acceptance by the real engines and per-engine semantics are not decided.",
         "design_ref": "DESIGN.md §3 C17",
         "note": "Trusted: sqlparser source in the cargo registry at the version pinned by /repo/Cargo.lock.",
@@ -127,7 +127,7 @@ CHECKS = {
     },
     "C18": {
         "technique": "reachability over the monomorphic call graph (rustc MIR driver) + MIR switch/assert facts: inventory of explicit aborts keyed by the enum variants that select them, unchecked i64 arithmetic with a reviewed safe table, dispatch-table holes",
-        "level": "Inventory: every todo!/unimplemented!/panic!/unreachable! (P1), every overflow-checked i64 operation outside a reviewed safe table (P2) every unwrap of the by-design refusal Variant::try_empty (P5), an integer-range enumeration whose length test under-reports (P6), every implementation registered without the Optional wrapper whose super_image can refuse (P7) and every hole of the two implementation dispatch tables (E1) that is reachable from the "
+        "level": "Inventory: every todo!/unimplemented!/panic!/unreachable! (P1), every overflow-checked i64 operation outside a reviewed safe table (P2) every unwrap of the by-design refusal Variant::try_empty (P5), an integer-range enumeration whose length test under-reports (P6), every implementation registered without the Optional wrapper whose super_image can refuse (P7), every clause of a sqlparser node that is bound and never read (P8) and every hole of the two implementation dispatch tables (E1) that is reachable from the "
                  "public entry points is reported; the sites on the pinned tree are input-confirmed known findings, any new one is a violation. unwrap/expect, indexing, assert! preconditions and termination are not decided.",
         "design_ref": "DESIGN.md §3 C18",
         "note": "Trusted: as C16. The 175 P1 findings are one class (unsupported construct -> abort instead of Err); a sample was confirmed by input with a probe binary (DESIGN §6).",
